@@ -30,7 +30,10 @@ ASSUMPTIONS = ["std::getline semantics of a 'line': pieces between newlines, a t
                "an unchanged (inode, size, mtime_ns, bytes) tuple means the file was not written during the call",
                "excluded by construction and counted: mixed per-number selected-output string switches (known finding, DESIGN 9.1); not generated: redefinition of a "
                "SELECTED_OUTPUT number after the first simulation of a call (the file is truncated at the redefinition, see C05) and a second DUMP -file destination inside one call",
-               "planned errors are the only errors: a call whose return value disagrees with the plan is discarded"]
+               "planned errors are the only errors: a call whose return value disagrees with the plan is discarded",
+               "'enabled' is what the harness last SET (model of the setter calls; setters are called only for switches whose wanted value changes, an unchanged "
+               "vector means no setter call); a database load resets the per-number selected-output switches (IPhreeqc.hpp) and no global switch; every switch getter "
+               "must report the model after every call"]
 FLOORS = {"quick": 300, "thorough": 3000}
 SHARDS = {"quick": 8, "thorough": 16}
 BUDGET = {"quick": 700, "thorough": 5000, "replay": 1}
@@ -347,6 +350,7 @@ class Run:
             # engine's DUMP destination back to it
             self.dump_api = self.name["dump"]
             self.prev_sw = None
+            self.model = None          # switches as last set by this harness
             for j, step in enumerate(case["steps"]):
                 if step["op"] == "load":
                     self.load(step)
@@ -387,7 +391,7 @@ class Run:
     def peek(self, stream):
         """content of a string buffer whose switch may be off (switch temporarily on; the setters only store a flag)"""
         cap = CAP[stream]
-        on = self.I.geti("Get%sStringOn" % cap)
+        on = self.model[{"output": "os", "log": "ls", "dump": "ds"}[stream]]      # what was set, not what a getter says
         if not on:
             self.I.seti("Set%sStringOn" % cap, 1)
         s = self.I.gets("Get%sString" % cap)
@@ -395,18 +399,54 @@ class Run:
             self.I.seti("Set%sStringOn" % cap, 0)
         return s
 
+    GLOBALS = (("of", "OutputFileOn"), ("os", "OutputStringOn"), ("lf", "LogFileOn"), ("ls", "LogStringOn"), ("df", "DumpFileOn"),
+               ("ds", "DumpStringOn"), ("ef", "ErrorFileOn"), ("es", "ErrorStringOn"), ("eo", "ErrorOn"))
+
     def apply(self, sw):
+        """Bring the instance to switch vector `sw` by calling setters ONLY for switches whose wanted value differs from what this
+        harness set last (self.model): an unchanged vector means no setter call at all.  'Enabled' is what was set, never what a
+        getter reports.  A database load resets the per-number selected-output switches (IPhreeqc.hpp) but no global switch."""
         I, case = self.I, self.case
-        for k, name in (("of", "SetOutputFileOn"), ("os", "SetOutputStringOn"), ("lf", "SetLogFileOn"), ("ls", "SetLogStringOn"),
-                        ("df", "SetDumpFileOn"), ("ds", "SetDumpStringOn"), ("ef", "SetErrorFileOn"), ("es", "SetErrorStringOn"), ("eo", "SetErrorOn")):
-            I.seti(name, sw[k])
-        smap = sw.get("ss_map")       # only in the known-finding replay (mixed per-number string switches)
+        first = self.model is None
+        if first:
+            self.model = {"sf": {}, "ss": {}}
+        for k, name in self.GLOBALS:
+            if first or self.model[k] != bool(sw[k]):
+                I.seti("Set" + name, sw[k])
+                self.model[k] = bool(sw[k])
+        smap = sw.get("ss_map")       # only in a known-finding replay (mixed per-number string switches)
         # every number that an input may define gets the (common) string switch: see the known finding on per-number string switches
         for n in sorted(set(case["nums"]) | {case["current"]} | set(NUMS)):
-            I.set_current(n)
-            I.seti("SetSelectedOutputFileOn", sw["sf"].get(str(n), False))
-            I.seti("SetSelectedOutputStringOn", smap.get(str(n), False) if smap else sw["ss"])
+            wf = bool(sw["sf"].get(str(n), False))
+            ws = bool(smap.get(str(n), False) if smap else sw["ss"])
+            if first or self.model["sf"].get(n, False) != wf or self.model["ss"].get(n, False) != ws:
+                I.set_current(n)
+                if first or self.model["sf"].get(n, False) != wf:
+                    I.seti("SetSelectedOutputFileOn", wf)
+                if first or self.model["ss"].get(n, False) != ws:
+                    I.seti("SetSelectedOutputStringOn", ws)
+                self.model["sf"][n], self.model["ss"][n] = wf, ws
         I.set_current(case["current"])
+
+    def check_switches(self, where, per_number):
+        """the getters report what was set: neither a run nor a (failing) load changes a global switch"""
+        I = self.I
+        if self.model is None:
+            return
+        for k, name in self.GLOBALS:
+            got = bool(I.geti("Get" + name))
+            if got != self.model[k]:
+                self.fail("switch_getter", "%s: Get%s returns %d but the switch was last set to %d" % (where, name, got, self.model[k]))
+        if per_number:
+            for n in sorted(self.model["sf"]):
+                I.set_current(n)
+                if bool(I.geti("GetSelectedOutputFileOn")) != self.model["sf"][n]:
+                    self.fail("switch_getter", "%s: GetSelectedOutputFileOn of user number %d returns %d, was set to %d"
+                              % (where, n, I.geti("GetSelectedOutputFileOn"), self.model["sf"][n]))
+                if bool(I.geti("GetSelectedOutputStringOn")) != self.model["ss"][n]:
+                    self.fail("switch_getter", "%s: GetSelectedOutputStringOn of user number %d returns %d, was set to %d"
+                              % (where, n, I.geti("GetSelectedOutputStringOn"), self.model["ss"][n]))
+            I.set_current(self.case["current"])
 
     # -- LoadDatabase step
     def load(self, step):
@@ -421,6 +461,9 @@ class Run:
             raise Discard("unplanned_load_rc")
         self.name["dump"] = self.dump_api
         where = "after %s LoadDatabase" % ("a good" if step["ok"] else "a failing")
+        if self.model is not None:
+            self.model["sf"], self.model["ss"] = {}, {}      # documented reset of the per-number selected-output switches
+        self.check_switches(where, False)
         sw = self.prev_sw
         eo = sw["eo"] if sw else True
         es = sw["es"] if sw else True
@@ -455,6 +498,7 @@ class Run:
                 I.accumulate(line)
             rc = I.run_accumulated()
         after = snapshot(d)
+        self.check_switches(where, True)
         planned = meta["err_sim"] is not None
         if (rc != 0) != planned:
             raise Discard("unplanned_rc_%s" % ("error" if rc != 0 else "success"))
